@@ -150,6 +150,11 @@ def wrapArity (cfg : Cfg) : Structure → Int × List Structure
   | .lam ar body => ((match ar with | some a => (a : Int) | Option.none => 1), body)
   | s => (1, [s])
 
+/-- unnamed loops bind the Python variable `VAR_LOOP<random>`; a program variable of that shape could collide with
+    it (never in practice: the suffix is 32 random hex digits) — such names are outside the core -/
+def loopPrefix : Str := [76, 79, 79, 80]
+def isLoopName (x : Str) : Bool := loopPrefix.isPrefixOf x
+
 def keyCh (k : Str) : Nat := match k with | [c] => c | _ => 0
 
 def insertByKey (k : Int) (v : Val) : List (Int × Val) → List (Int × Val)
@@ -205,7 +210,8 @@ def execS (cfg : Cfg) : Nat → Structure → RSt → R (Sig × RSt)
           | [] => Option.none
           | nm :: _ => some (nm.filter (fun c => isLetter c || isDigit c))
         (match var with
-         | some v => if v ≠ [] ∧ σ.depth > 0 then .error (.unmodelled "loop variable inside a function") else pure ()
+         | some v => if v ≠ [] ∧ σ.depth > 0 then .error (.unmodelled "loop variable inside a function")
+                     else if isLoopName v then .error (.unmodelled "variable named LOOP…") else pure ()
          | Option.none => pure ())
         forLoop cfg n var body items σ1
   | n, .whileS Option.none body, σ =>
@@ -545,6 +551,7 @@ def execTok (cfg : Cfg) : Nat → Token → RSt → R (Sig × RSt)
          | [] => .ok (.normal, σ.push σ.ghost)
          | c :: _ =>
            if c = 95 then .error (.unmodelled "underscore variable")
+           else if isLoopName t.value then .error (.unmodelled "variable named LOOP…")
            else match lookupKV t.value σ.params with
              | some v => .ok (.normal, σ.push v)
              | Option.none =>
@@ -557,6 +564,7 @@ def execTok (cfg : Cfg) : Nat → Token → RSt → R (Sig × RSt)
          | [] => let (x, σ1) := σ.pop1; .ok (.normal, { σ1 with ghost := x })
          | c :: _ =>
            if c = 95 then .error (.unmodelled "underscore variable")
+           else if isLoopName t.value then .error (.unmodelled "variable named LOOP…")
            else if σ.depth > 0 then .error (.unmodelled "assignment inside a function")
            else let (x, σ1) := σ.pop1; .ok (.normal, { σ1 with globals := setKV t.value x σ1.globals }))
     | _ => .error (.unmodelled "literal outside the closed core")
